@@ -12,11 +12,21 @@ import numpy as np
 
 
 @contextlib.contextmanager
-def env_seams(uuid_value="00000000-0000-1000-8000-000000000000",
-              versions=None, date_value=(2020, 1, 2)):
-    """Own the environment nondeterminism: uuid, date, version/git subprocesses."""
+def env_seams(uuid_value=None, versions=None, date_value=None):
+    """Own the environment nondeterminism: uuid, date, version/git subprocesses.
+    HSIM_UUID / HSIM_DATE choose the simulated values; HSIM_REAL_ENV=1 leaves the real
+    uuid1 / date / git in place (used as one column of the C14 environment matrix)."""
     import datetime
+    import os
     import uuid
+
+    if os.environ.get("HSIM_REAL_ENV") == "1":
+        yield
+        return
+    uuid_value = uuid_value or os.environ.get(
+        "HSIM_UUID", "00000000-0000-1000-8000-000000000000")
+    if date_value is None:
+        date_value = tuple(int(x) for x in os.environ.get("HSIM_DATE", "2020-01-02").split("-"))
 
     import hypnotoad.core.mesh as meshmod
     import hypnotoad.geqdsk._geqdsk as gq
@@ -170,16 +180,49 @@ def tok_options(geometry, **over):
     return o
 
 
-def build_tokamak(arrs, options, nonorth=None):
+INPUT_MUTATIONS = []  # findings of the caller-array oracle (C14), read by histsim
+
+
+def snapshot_inputs(arrs):
+    import copy
+
+    return {k: copy.deepcopy(v) for k, v in arrs.items()}
+
+
+def compare_inputs(arrs, snap, where):
+    """Caller-side oracle: the arrays handed to a constructor must compare equal to the
+    copies taken before the call."""
+    found = []
+    for k, before in snap.items():
+        after = arrs[k]
+        if isinstance(before, np.ndarray):
+            same = isinstance(after, np.ndarray) and after.shape == before.shape and \
+                np.array_equal(after, before)
+        else:
+            same = after == before
+        if not same:
+            found.append(k)
+    if found:
+        INPUT_MUTATIONS.append({"where": where, "arrays": sorted(found)})
+    return found
+
+
+def build_tokamak(arrs, options, nonorth=None, equilibrium_only=False, where="build_tokamak"):
     from hypnotoad.cases import tokamak
     from hypnotoad.core.mesh import BoutMesh
 
-    eq = tokamak.TokamakEquilibrium(
-        arrs["R1D"], arrs["Z1D"], arrs["psi2D"], arrs["psi1D"], arrs["fpol1D"],
-        pressure=arrs.get("pressure"), wall=arrs.get("wall"),
-        settings=dict(options), nonorthogonal_settings=dict(nonorth or options),
-    )
-    mesh = BoutMesh(eq, dict(options))
+    snap = snapshot_inputs(arrs)
+    try:
+        eq = tokamak.TokamakEquilibrium(
+            arrs["R1D"], arrs["Z1D"], arrs["psi2D"], arrs["psi1D"], arrs["fpol1D"],
+            pressure=arrs.get("pressure"), wall=arrs.get("wall"),
+            settings=dict(options), nonorthogonal_settings=dict(nonorth or options),
+        )
+        if equilibrium_only:
+            return eq, None
+        mesh = BoutMesh(eq, dict(options))
+    finally:
+        compare_inputs(arrs, snap, where)
     return eq, mesh
 
 
